@@ -65,7 +65,7 @@ def run_variant(pid, v, base: Path):
             return v, "skipped", why
         env = dict(os.environ, VERIF_REPO=str(d), VERIF_EVIDENCE_DIR=str(d / "evidence"))
         r = subprocess.run([sys.executable, "-m", "sa.main", pid, "--tier", "quick"], cwd=str(VERIF), env=env,
-                           capture_output=True, text=True, timeout=600)
+                           capture_output=True, text=True, timeout=1500)
         out = r.stdout + r.stderr
         if v["kind"] == "benign":
             ok = r.returncode == 0
@@ -98,7 +98,7 @@ def replay_seeds(pid):
             if r.returncode != 0:
                 return d.name, "patch-no-longer-applies"
             env = dict(os.environ, VERIF_REPO=str(w), VERIF_EVIDENCE_DIR=str(w / "evidence"))
-            r = subprocess.run([sys.executable, "-m", "sa.main", pid, "--tier", "quick"], cwd=str(VERIF), env=env, capture_output=True, text=True, timeout=600)
+            r = subprocess.run([sys.executable, "-m", "sa.main", pid, "--tier", "quick"], cwd=str(VERIF), env=env, capture_output=True, text=True, timeout=1500)
             return d.name, ("caught" if r.returncode == 1 and "VIOLATION property=" in r.stdout else f"NOT-CAUGHT rc={r.returncode}")
         with ThreadPoolExecutor(max_workers=8) as ex:
             res = list(ex.map(one, mine))
@@ -127,7 +127,7 @@ def replay_benign(pid):
     temporary, loop <-> comprehension, guard clauses, if/else <-> conditional expression, ...).  The check must give the same
     verdict on every one of them as on the tree itself: a refactoring that changes no behaviour must not raise an alarm."""
     pats = sorted((VERIF / "benign").glob("*patch*.diff")) + sorted((VERIF / "benign2").glob("*patch*.diff")) \
-        + sorted((VERIF / "benign3").glob("*patch*.diff")) + sorted((VERIF / "benign4").glob("*patch*.diff"))
+        + sorted((VERIF / "benign3").glob("*patch*.diff")) + sorted((VERIF / "benign4").glob("*patch*.diff")) + sorted((VERIF / "benign5").glob("*patch*.diff"))
     if not pats:
         return 0
     base = Path(tempfile.mkdtemp(prefix="sa-benign-"))
@@ -139,7 +139,7 @@ def replay_benign(pid):
             if r.returncode != 0:
                 return d.name, "patch-no-longer-applies"
             env = dict(os.environ, VERIF_REPO=str(w), VERIF_EVIDENCE_DIR=str(w / "evidence"))
-            r = subprocess.run([sys.executable, "-m", "sa.main", pid, "--tier", "quick"], cwd=str(VERIF), env=env, capture_output=True, text=True, timeout=600)
+            r = subprocess.run([sys.executable, "-m", "sa.main", pid, "--tier", "quick"], cwd=str(VERIF), env=env, capture_output=True, text=True, timeout=1500)
             return d.name, ("silent" if r.returncode == 0 else f"ALARM rc={r.returncode}: " + " | ".join(l[:160] for l in r.stdout.splitlines() if l.startswith(("REFUTED", "ANALYSIS-ERROR")))[:400])
         with ThreadPoolExecutor(max_workers=min(16, os.cpu_count() or 4)) as ex:
             res = list(ex.map(one, pats))
